@@ -1,6 +1,6 @@
 """props.py: per-property configuration of ./check"""
 
-GENERATORS = ['gen.py']
+GENERATORS = ['gen.py', 'gen_deps.py']
 
 PROPS = {
     'C01': dict(
@@ -113,5 +113,36 @@ PROPS = {
                    'positive and not below the three-layer-model slip, itself strictly between 0 and 1-Cvt/Cvb, so Cvt < Cvs. The upper bound is partial.',
         level_note='Upper bound Xi <= 1 - Cvt/Cvb: search only. Known finding: exact binary64 zero of the Eqn 8.12-3 denominator (ZeroDivisionError) on a '
                    'measure-zero set.',
+    ),
+    'C08': dict(
+        own_files=['Lemmas/LC08.v', 'Props/C08.v'],
+        corr=[dict(script='corr_gen.py', n=150, n_thorough=3000,
+                   args=['Homogeneous.pipe_reynolds_number', 'Homogeneous.swamee_jain_ff', 'Stratified.fb_pressure_loss', 'Stratified.fb_Erhg',
+                         'Framework.slip_ratio', 'Framework.Cvt_Erhg', 'Framework.Cvt_Erhg_dict', 'Framework.Cvs_Erhg', 'Framework.Cvs_Erhg_dict'])],
+        search='C08.py', budget_quick=150, budget_thorough=5000,
+        partial=[],
+        level_text='Proof: (generic, induction over the history) a memoised function whose result does not depend on the environment and whose '
+                   'stored results cannot be mutated returns, for every history of calls / switch assignments / evictions, exactly what the '
+                   'uncached function returns; (instance, by computation on the table regenerated from the source) no lru_cache-wrapped function '
+                   'reads a mutable module global directly or through its callees and none returns a dict; the only mutable globals any modelled '
+                   'function reads are use_sf and use_sqrtcx. Two boundary theorems show the model does exhibit both failure modes.',
+        level_note='The dependency table is a static analysis of the Python source (decorators, call graph, Name loads shadowed by parameters, dict '
+                   'returns) regenerated every run; dynamic features (getattr, globals()) are outside it and are covered only by the history '
+                   'search on the real modules (calls x toggles x in-place mutation vs a fresh-cache reference).',
+    ),
+    'C06': dict(
+        own_files=['Lemmas/LC06.v', 'Props/C06.v'],
+        corr=[dict(script='corr_gen.py', n=500, n_thorough=10000, args=['Framework.LDV', 'Homogeneous.swamee_jain_ff', 'Heterogeneous.vt_ruby'])],
+        search='C06.py', budget_quick=600, budget_thorough=40000,
+        partial=['C06_converged: that LDV(max_steps=10) is within 0.1 % of the fixed points of its four implicit equations on E is not proved (needs a '
+                 'quantitative contraction bound sharper than the derivative-free elasticity bound of Lemmas/SwameeJain.v); it is searched against an '
+                 'independent fixed-point solve written in the search script',
+                 'C06_positive is proved for the real-number model, where a power of a non-positive base is a (positive) junk value; that the bases are '
+                 'positive on E belongs to the finiteness obligation (C02)'],
+        level_text='Proof (regenerated model, all reals, every iteration budget): LDV does not depend on its line-speed argument (the parameter is '
+                   'overwritten before use; reflexivity) and LDV > 0 (induction over the counted loops: every Durand factor is a positive product of '
+                   'powers; the upper limit is FL_r, FL_s or a convex blend). Convergence within 0.1 % is partial.',
+        level_note='The four while-loops are translated as structural recursion on max_steps and compared bit-exactly with the Python for max_steps in '
+                   '{0,1,3,10,20,50}. Convergence: search only, against an independent solver.',
     ),
 }
